@@ -41,7 +41,7 @@ GD1(kc, v) == DictV(<< <<StrV(kc), v>> >>)
 RECURSIVE GenCands(_)
 GenCands(f) ==
     CASE f.kind = "int"      -> {IntV(3), IntV(11), gs(<<"7">>), NoneV, gs(<<"x">>), IntV(0), IntV(65535), IntV(65536)}
-      [] f.kind = "string"   -> {gs(<<" ", "A", "b", " ">>), gs(<<"a", "b", "c", "d">>), IntV(1), gs(<<>>), gs(<<" ", "E", "r", "r", "o", "r">>)}
+      [] f.kind = "string"   -> {gs(<<" ", "A", "b", " ">>), gs(<<"a", "b", "c", "d">>), IntV(1), gs(<<>>), gs(<<" ", "E", "r", "r", "o", "r">>), gs(<<"R", "e", "d">>), gs(<<"r", "e", "d">>), gs(<<"A", "B">>)}
       [] f.kind = "bool"     -> {gs(<<"y", "e", "s">>), gs(<<"m">>), BoolV(TRUE)}
       [] f.kind = "ipv4addr" -> {gs(<<"1", "0", ".", "0", ".", "0", ".", "7">>), gs(<<"2", "5", "6", ".", "1", ".", "1", ".", "1">>)}
       [] f.kind = "bytes"    -> {BytesV(<<0, 255>>), gs(<<"a", "b">>), IntV(5)}
